@@ -79,6 +79,10 @@ def main():
 
     output.standard_name = variable.name
     output.units = unit = variable.units.replace("$", "")
+    if variable.x0 is not None:
+        output.x0 = variable.x0
+    if variable.x1 is not None:
+        output.x1 = variable.x1
 
     vobs[:] = input.obs
     vfcst[:] = input.fcst
